@@ -54,3 +54,18 @@ def test_callback_conventions():
     assert cw.callback_conv("mixed_top", "mhp_constr") == "with_value"
     assert cw.callback_conv("mixed_mid", "hess_neg_log_dens") == "with_value"
     assert cw.callback_conv("mixed_mid", "mtp_neg_log_dens") == "plain"
+
+
+def test_wavy_manifold_jacobian_and_tolerances():
+    from mc.props import c02, c20
+    from decimal import Decimal
+
+    system, c, jac = c02.wavy_system()
+    q = np.array([1.3e-3, 0.2e-3, 1e7 + 0.25])
+    h = 1e-9
+    fd = np.array([(c(q + h * e)[0] - c(q - h * e)[0]) / (2 * h) for e in np.eye(3)])
+    assert np.allclose(jac(q)[0], fd, rtol=1e-4, atol=1e-6)
+    # relative-precision tolerance of log-sum-exp: tiny when the result is tiny, never zero
+    ex = Decimal(4.248354255291589e-18)
+    assert 0 < c20.tol_lse(0.0, -40.0, ex) < 1e-30
+    assert c20.tol_lse(1000.0, 999.0, Decimal(1000.3132616875182)) < 1e-11
